@@ -14,6 +14,33 @@ CLAIMS = {
             "Trusts math/big; whole-second periods only (as the property states).", "DESIGN.md §3 C16"),
 }
 
+CLAIMS.update({
+    "C17": ("pure", "property-based testing (rapid): metamorphic single-field perturbation + permutation invariance + cross-encoding equality",
+            "Generated groups/infos over all 5 schemes; every case checks hash equality across all encoding paths, sensitivity to one drawn identified-field perturbation, insensitivity to membership, "
+            "rejection of mismatching embedded hashes by the JSON decoder, and permutation invariance of the group hash. Sampling, not proof.",
+            "Trusts kyber point marshalling and the hash functions.", "DESIGN.md §3 C17"),
+    "C20": ("pure", "property-based round-trip testing (rapid) through real files, the real bolt dkg.db, protobuf and JSON; negative generators for decoders",
+            "Round trips of generated groups, key pairs, identities, shares, chain infos, beacons and DKG records (all 12 statuses) compared field-wise by a comparator written in the harness, plus hash equality and encode fixpoints; "
+            "decoders must refuse out-of-range thresholds and unknown schemes. Sampling of the value space.",
+            "Values restricted to what the system can produce; nil ≡ empty byte strings.", "DESIGN.md §3 C20"),
+    "C18": ("store", "model-based testing against a reference sorted map: bounded-exhaustive enumeration + rapid state machine",
+            "Every Put/Del sequence up to length 4 (thorough: 6) over a 4-round alphabet followed by every observation incl. all cursor bodies of length <=3 is enumerated for each of 6 back-end configurations; "
+            "long random histories with re-puts, deletes, reopen and in-session mutation beyond that. Exhaustive within the stated bound, sampled outside it.",
+            "bbolt trusted; postgres back-end unreachable offline.", "DESIGN.md §3 C18"),
+    "C01": ("beaconnet", "stateful property-based testing (rapid state machine) of real beacon handlers on an in-memory network with adversarial partials and lying sync peers; oracle = independent re-verification of every stored/served beacon",
+            "Real beacon.Handler instances (2-6 nodes, 5 schemes, 3 back-ends) driven through generated schedules with forged partials (12 kinds) and scripted hostile sync peers (13 kinds); every base-store Put and every streamed beacon "
+            "is re-verified with the harness's own digest and copy of the group key. Sampling of schedules; interleavings inside drand's goroutines are not enumerated.",
+            "BLS/kyber trusted; gRPC/HTTP serving layer covered separately (see notes).", "DESIGN.md §3 C01"),
+    "C02": ("beaconnet", "stateful property-based testing (rapid state machine); oracle = invariant over each node's complete Put history + cursor scans + pairwise equality",
+            "Same engine as C01 with partitions, queued/reordered/duplicated/dropped delivery, stop/restart (same or fresh store), lying sync peers; after every step the Put history must be append-only and gap-free, "
+            "scans hole-free with intact previous-signature links, and all nodes byte-identical per round.",
+            "Go scheduler interleavings are sampled; postgres not reachable.", "DESIGN.md §3 C02"),
+    "C04": ("beaconnet", "stateful property-based testing (rapid state machine) with per-node fake clocks; oracle = every emitted partial stamped with the sender's clock vs. an independent schedule formula",
+            "Clock scripts (sub-period steps, bursts, per-node stalls and skew, realignment), restarts and partitions; every PartialBeacon leaving a node is stamped with that node's clock and compared with T(round); "
+            "valid partials for clock+2.. must be refused.",
+            "Clocks only move forward; stamping at send time is lenient by construction.", "DESIGN.md §3 C04"),
+})
+
 PENDING_REASON = "check not built yet in this session (planned, see DESIGN.md §3); not claimed until it exists and is silent on the unchanged tree"
 
 
@@ -64,6 +91,8 @@ def main():
 NA_REASONS = {}
 HOOK_COMMITS = []
 ENGINES = [
+    {"name": "store", "path": "harness/store", "serves_properties": ["C18"], "kind_free_text": "model-based tests of boltdb (trimmed/untrimmed) and memdb stores"},
+    {"name": "beaconnet", "path": "harness/beaconnet", "serves_properties": ["C01", "C02", "C03", "C04", "C05", "C07", "C10"], "kind_free_text": "real beacon.Handler instances on an in-memory ProtocolClient network with fake clocks, recording stores, adversary catalogue"},
     {"name": "pure", "path": "harness/pure", "serves_properties": ["C16", "C17", "C20"], "kind_free_text": "rapid property tests calling exported pure functions of /repo through a nested Go module"},
 ]
 
